@@ -45,6 +45,7 @@ from engine import tt, scope
 from engine.common import setup_paths
 
 PROPERTY = 'C04'
+SECOND_PASS = ('run_groups',)    # see engine/common._run_shard
 LEVEL = 'exploration'
 EXHAUSTIVE = True
 RULE = ('lin: every (class, literal list, container, check flag, builder, operator, constant) of the '
@@ -962,9 +963,10 @@ def shards(tier, seed):
 
 def run_groups(args, R):
     tier = args['tier']
-    for g in args['groups']:
+    rev = bool(args.get('reverse'))
+    for g in (reversed(args['groups']) if rev else args['groups']):
         part = g['part']
-        for case in group_cases(g, tier):
+        for case in (reversed(list(group_cases(g, tier))) if rev else group_cases(g, tier)):
             R.nt = False
             vs = check_case(case, R)
             R.case(sample=case if R.evals % 4999 == 0 else None, nontrivial=R.nt)
